@@ -1241,7 +1241,8 @@ func compileExpr(context *funcContext, reg int, expr ast.Expr, ec *expcontext) i
 			raiseCompileError(context, sline(ex), "too many results taken from '...'")
 		}
 		code.AddABC(OP_VARARG, sreg, 2+ec.varargopt, 0, sline(ex))
-		if context.RegTop() > (sreg+2+ec.varargopt) || ec.varargopt < -1 {
+		if sreg != reg || context.RegTop() > (sreg+2+ec.varargopt) || ec.varargopt < -1 {
+			// (sreg != reg: the value went straight into the register of the local being assigned)
 			return 0
 		}
 		return (sreg + 1 + ec.varargopt) - reg
